@@ -168,6 +168,8 @@ pub struct World {
     pub live: BTreeSet<u32>,
     /// accepted, output not yet yielded / source not yet ended
     pub held: BTreeSet<u32>,
+    /// live children that are owed a poll, ordered by the poll number since which they are owed it
+    pub owed_polls: BTreeSet<(u64, u32)>,
     pub work_cap: u64,
     pub child_polls_total: u64,
     pub child_waker_invocations: u64,
@@ -187,6 +189,7 @@ pub struct World {
     pub nd_children: bool,
     pub raw_outputs: bool,
     pub child_panics: u64,
+    pub inexact_iter: bool,
 }
 
 pub const NFAULT: usize = 17;
@@ -247,6 +250,7 @@ impl World {
             pulled_ids_call: Vec::new(),
             live: BTreeSet::new(),
             held: BTreeSet::new(),
+            owed_polls: BTreeSet::new(),
             work_cap: u64::MAX,
             child_polls_total: 0,
             child_waker_invocations: 0,
@@ -265,6 +269,7 @@ impl World {
             nd_children: false,
             raw_outputs: false,
             child_panics: 0,
+            inexact_iter: false,
         }
     }
 
@@ -377,6 +382,11 @@ impl World {
     /// The child finished (future completed / source ended) or was dropped.
     pub fn no_longer_live(&mut self, id: u32) {
         self.live.remove(&id);
+        let c = &self.children[id as usize];
+        if c.needs_poll {
+            let k = (c.needs_since, id);
+            self.owed_polls.remove(&k);
+        }
         if self.children[id as usize].kind == CKind::Src {
             self.held.remove(&id);
         }
@@ -419,6 +429,7 @@ impl World {
         c.needs_since = pn;
         c.needs_by_wake = false;
         c.credits += 1;
+        self.owed_polls.insert((pn, id));
         self.accepted_pushes += 1;
         self.live.insert(id);
         self.held.insert(id);
@@ -436,7 +447,9 @@ impl World {
             if !c.needs_poll {
                 c.needs_poll = true;
                 c.needs_since = pn;
+                self.owed_polls.insert((pn, child));
             }
+            let c = &mut self.children[child as usize];
             c.needs_by_wake = true;
             c.credits += 1;
         } else {
